@@ -480,6 +480,7 @@ func (t *Collection) VisitItemsRandom(
 		return err
 	}
 	err = t.VisitItemsAscendEx(si.Key, false, v)
+	t.store.ItemDecRef(t, si)
 	if err != nil {
 		return err
 	}
@@ -553,6 +554,7 @@ func (t *Collection) VisitItemsAscendBlockEx(
 		return err
 	}
 	err = t.VisitItemsAscendEx(si.Key, false, v)
+	t.store.ItemDecRef(t, si)
 	if err != nil {
 		return err
 	}
